@@ -56,9 +56,14 @@ class World(object):
             self.cb_handler(obj, phase, cname)
 
     # -------------------------------------------------------------- helpers
+    globals_reader = None
+
     def tree(self, p):
         pt = self.parties[p]
-        return builder.read_tree(pt.env, pt.cname, pt.obj)
+        t = builder.read_tree(pt.env, pt.cname, pt.obj)
+        if self.globals_reader is not None:
+            t["$g"] = self.globals_reader()
+        return t
 
     def new(self, cname, env=None):
         env = env or self.env
